@@ -4,6 +4,7 @@ package main
 import (
 	"fmt"
 	"os"
+	"strings"
 	"runtime/debug"
 	"runtime/pprof"
 	"sort"
@@ -50,5 +51,8 @@ func main() {
 		r.Finish()
 	}
 	f(r)
+	if !strings.HasPrefix(id, "C") {
+		return // helper commands (counts, overlay-gen) write no evidence
+	}
 	r.Finish()
 }
